@@ -734,6 +734,10 @@ class HSM2Dongle:
                 return (False, self.RESPONSE.SIGN.ERROR_UNEXPECTED)
 
             bytes_requested = response[1][self.OFF.DATA]
+        except OverflowError as e:
+            # Witness script (or transaction) too long for its length field
+            self.logger.error("Sign: invalid BTC tx or extra data: %s", str(e))
+            return (False, self.RESPONSE.SIGN.ERROR_BTC_TX)
         except HSM2DongleErrorResult as e:
             self.logger.error("Sign returned: %s", hex(e.error_code))
             if e.error_code in [
@@ -1235,6 +1239,12 @@ class HSM2Dongle:
                 # Step 2.3.1. Send brother list metadata
                 brother_list = brothers[block_number-1]
                 brother_count = len(brother_list)
+                if brother_count > 255:
+                    self.logger.error(
+                        "%s: too many brothers (%d)",
+                        operation_name.capitalize(), brother_count
+                    )
+                    return (False, responses.ERROR_INVALID_BROTHERS)
                 brother_count_bytes = brother_count.to_bytes(1,
                                                              byteorder="big",
                                                              signed=False)
@@ -1365,7 +1375,7 @@ class HSM2Dongle:
 
             # How many bytes to send as the first block chunk
             bytes_requested = response[self.OFF.DATA]
-        except ValueError as e:
+        except (ValueError, OverflowError) as e:
             self.logger.error("Computing %s metadata: %s", header_name, str(e))
             return (False, responses.ERROR_COMPUTE_METADATA)
         except HSM2DongleErrorResult as e:
